@@ -255,8 +255,13 @@ def r13(ctx, R):
         okk = len(keys) == 2
         for k in keys:
             from psa.rules.c05 import single_def
-            d = single_def(f, k.id) if isinstance(k, ast.Name) else None
-            if d is None or v not in C.names_in(d.value):
+            # a key is a value of the allocation walked: a local bound to
+            # it, or the expression itself
+            if isinstance(k, ast.Name):
+                d = single_def(f, k.id)
+                if d is None or v not in C.names_in(d.value):
+                    okk = False
+            elif v not in C.names_in(k):
                 okk = False
         R.ob('R1.3', 'check:running-sum-key', okk,
              'the sum is keyed by the allocation\'s provider and class',
